@@ -41,7 +41,9 @@ type Model struct {
 	Why     string // first reason for an Unspecified / Err verdict
 	Strict  bool
 	nextID  int
-	Ticks   int // evaluated `tick` filters (C10: conditions after the chosen branch are not evaluated)
+	Ticks   int // evaluated `tick` filters (C10: conditions after the chosen branch are not evaluated), short-circuiting and/or
+	TicksHi int // the same when and/or evaluate both operands (the statement allows either)
+	skipLo  int
 	Steps   int
 	MaxStep int
 }
@@ -459,8 +461,15 @@ func (m *Model) Eval(e *E) (any, Status) {
 		}
 		// both operands are evaluated (an error in either fails the expression);
 		// the statement does not promise short-circuiting inside one expression
+		skippable := truthy(a) != (e.N == "and") // a short-circuiting evaluation would not look at the right operand
+		if skippable {
+			m.skipLo++
+		}
 		b, st := m.Eval(e.A[1])
-		if st == StErr && truthy(a) != (e.N == "and") {
+		if skippable {
+			m.skipLo--
+		}
+		if st == StErr && skippable {
 			// the right operand fails but a short-circuiting evaluation would skip it
 			return nil, m.why(StUnspec, "failing right operand that short-circuiting would skip")
 		}
@@ -798,7 +807,10 @@ func (m *Model) Filter(name string, x any, args []any) (any, Status) {
 	un := func(f string, a ...any) (any, Status) { return nil, m.why(StUnspec, "filter "+name+": "+f, a...) }
 	switch name {
 	case "tick": // harness-registered counting filter (identity)
-		m.Ticks++
+		m.TicksHi++
+		if m.skipLo == 0 {
+			m.Ticks++
+		}
 		return x, StOK
 	case "fail": // harness-registered filter that always returns an error
 		return nil, StErr
